@@ -114,6 +114,7 @@ def r4(ctx):
     lk = [r for g in fns for r in ast.walk(g.node) if isinstance(r, ast.Return) and r.value is not None and "Variable(factor.expr" in norm(r.value)]
     ctx.check(bool(lk), "C17.R4", "a lookup factor's variable is its own expression", sf.where, ctx.construct(sf, text="lookup → name"),
               "expected the lookup branch to return Variable(factor.expr, roles=('value',))")
+    alias_round_trip(ctx, "C17.R4")
     ok = "if 'value' in variable.roles" in norm(sf.node)
     ctx.check(ok, "C17.R4", "only value-role variables are required (callables are not data)", sf.where, ctx.construct(sf, text="roles"), "role filter missing")
 
@@ -149,6 +150,34 @@ def _guarded_by(P: Project, node: ast.AST, test_text: str) -> bool:
             return True
         child, n = n, P.parent(n)
     return False
+
+
+def alias_round_trip(ctx, rule: str):
+    """Wherever an expression is back-tick sanitised and its variables are then extracted, the extractor receives the very alias
+    table the sanitiser filled (so variables are reported under the column's real name)."""
+    P = ctx.project
+    from ..core import arg_for
+    sfn = P.func("formulaic.utils.code.sanitize_variable_names").node
+    gev = P.func("formulaic.utils.variables.get_expression_variables").node
+    n = 0
+    for f in P.functions.values():
+        if isinstance(f.node, ast.Lambda):
+            continue
+        san = [c for c in walk_no_nested(f.node) if isinstance(c, ast.Call) and dotted(c.func) == "sanitize_variable_names"]
+        ext = [c for c in walk_no_nested(f.node) if isinstance(c, ast.Call) and dotted(c.func) == "get_expression_variables"]
+        if not san or not ext:
+            continue
+        s_al = arg_for(san[0], sfn, "aliases")
+        for c in ext:
+            n += 1
+            ctx.look()
+            a_al = arg_for(c, gev, "aliases")
+            ok = a_al is not None and s_al is not None and norm(a_al) == norm(s_al)
+            ctx.check(ok, rule, f"{f.qualname.replace('formulaic.', '')}: extracted variables are mapped back through the sanitiser's alias table", f.module.line(c),
+                      ctx.construct(f, text="aliases round trip"),
+                      f"sanitize_variable_names fills `{norm(s_al) if s_al is not None else None}` but get_expression_variables gets aliases=`{norm(a_al) if a_al is not None else None}`: "
+                      f"a back-quoted column used inside a call is recorded under its sanitised spelling (`my_col` instead of `my col`)")
+    ctx.floor(rule, n, 2, "sanitise-then-extract sites")
 
 
 def r5(ctx):
